@@ -147,6 +147,9 @@ func tryReplay(w *World, o checkOpts, ob *Obligation) *ReplayResult {
 	if ct == nil || ct.Fn == nil {
 		return &ReplayResult{Reason: "no function bound to obligation"}
 	}
+	if len(ct.Extra["isa"]) > 0 && ob.Kind == "isa" {
+		return isaReplay(w, o, ob, ct)
+	}
 	fn := ct.Fn
 	if fn.Signature.Recv() != nil || fn.Parent() != nil {
 		return &ReplayResult{Reason: "input shape not constructible: method or closure receiver"}
